@@ -577,6 +577,7 @@ func runC17(r *engine.Run) {
 	{
 		n := manyHistoryN(r)
 		r.Rule += fmt.Sprintf(" Many-KEKs history: %d steps, each a wrap + unwrap under a KEK (16 / 32 bytes alternating) not used before in the process, returning to earlier KEKs every 64th step; the blob equals the independent RFC 3394 wrap.", n)
+		r.Rule += collidingRule()
 		r.PartWorkers("keyenvelope/many-keks", []string{fmt.Sprintf("distinct KEKs:%d", n)}, 1, 1, func(c *engine.Case) {
 			ok := manyHistoryRun(n, func(i int) bool {
 				c.Eval()
